@@ -1,6 +1,12 @@
 //! Link state and link flow state
 
-use std::{marker::PhantomData, sync::Arc};
+use std::{
+    marker::PhantomData,
+    sync::{
+        atomic::{AtomicU32, Ordering},
+        Arc,
+    },
+};
 
 use fe2o3_amqp_types::definitions::{Fields, SequenceNo};
 use parking_lot::RwLock;
@@ -96,6 +102,10 @@ impl LinkFlowStateInner {
 #[derive(Debug)]
 pub(crate) struct LinkFlowState<R> {
     pub(crate) lock: RwLock<LinkFlowStateInner>,
+    /// Receiver only: deliveries that the session has handed to the link but that the link has
+    /// not counted yet (they are counted when the application receives them). Only modified
+    /// while holding the write lock
+    unconsumed: AtomicU32,
     role: PhantomData<R>,
 }
 
@@ -103,6 +113,7 @@ impl<R> LinkFlowState<R> {
     pub(crate) fn new(inner: LinkFlowStateInner) -> Self {
         Self {
             lock: RwLock::new(inner),
+            unconsumed: AtomicU32::new(0),
             role: PhantomData,
         }
     }
@@ -205,8 +216,12 @@ impl LinkFlowState<role::ReceiverMarker> {
         // value from the sender and any subsequent messages received on the link. Note that,
         // despite its name, the delivery-count is not a count but a sequence number
         // initialized at an arbitrary point by the sender.
+        //
+        // The sender's value already includes the deliveries that are still waiting in the link;
+        // they are counted when the application receives them, so they must not be counted here
         if let Some(delivery_count) = flow.delivery_count {
-            state.delivery_count = delivery_count;
+            state.delivery_count =
+                delivery_count.wrapping_sub(self.unconsumed.load(Ordering::Relaxed));
         }
 
         // link credit
@@ -274,10 +289,19 @@ impl<R> LinkFlowState<R> {
 }
 
 impl LinkFlowState<role::ReceiverMarker> {
+    /// The session hands a complete delivery to the link; it will be counted by `consume()`
+    pub fn on_delivery_forwarded(&self) {
+        let _state = self.lock.write();
+        self.unconsumed.fetch_add(1, Ordering::Relaxed);
+    }
+
     /// Consume one link credit if available. Returns an error if there is
     /// not enough link credit
     pub fn consume(&self, count: u32) -> Result<(), ReceiverTransferError> {
         let mut state = self.lock.write();
+        let unconsumed = self.unconsumed.load(Ordering::Relaxed);
+        self.unconsumed
+            .store(unconsumed.saturating_sub(count), Ordering::Relaxed);
         if state.link_credit < count {
             Err(ReceiverTransferError::TransferLimitExceeded)
         } else {
